@@ -141,6 +141,18 @@ def onRedirect (s : PSt) (r : Bool) : PSt :=
       bufLen := s.bufLen - (((s.out.map List.length).sum : Nat) : Int)
       targetEof := if s.eofSeen && r then s.targetEof + 1 else s.targetEof }
 
+/-- `feed_recv_buf` BEFORE the repair of finding A-C19-4: `if self._eof_received: writer.write_eof()` without the
+    test of `recv_eof` that `eof_received` makes.  File and StreamWriter targets re-check `recv_eof` themselves
+    (`needs_close` / `_recv_eof`), another process's stdin (`_ProcessWriter.write_eof`) does not: for that target
+    kind a redirect set up after EOF had arrived closed the target in spite of `recv_eof=False`. -/
+def onRedirectPreFix (s : PSt) (r : Bool) : PSt :=
+  if s.writer.isSome then s
+  else
+    resumeAfterFeed { s with
+      writer := some r, target := s.target ++ s.out, out := []
+      bufLen := s.bufLen - (((s.out.map List.length).sum : Nat) : Int)
+      targetEof := if s.eofSeen then s.targetEof + 1 else s.targetEof }
+
 /-- the event loop runs what was scheduled: a pending `_cleanup`, then the task blocked in `wait_closed()` -/
 def onTick (s : PSt) : PSt :=
   let s := if s.cleanupPending then cleanup s false false else s
@@ -192,6 +204,13 @@ def pstep (s : PSt) : PEv → PSt
 
 def prun (s : PSt) (evs : List PEv) : PSt := evs.foldl pstep s
 
+/-- the process before the repair of A-C19-4 with an SSHWriter (another process's stdin) as redirect target -/
+def pstepPreFix (s : PSt) : PEv → PSt
+  | .redirect r => onRedirectPreFix s r
+  | ev => pstep s ev
+
+def prunPreFix (s : PSt) (evs : List PEv) : PSt := evs.foldl pstepPreFix s
+
 /-- everything the peer sent on a stream before its CLOSE -/
 def sentBeforeClose : List PEv → Bool → Bytes
   | [], _ => []
@@ -199,39 +218,82 @@ def sentBeforeClose : List PEv → Bool → Bytes
   | .data e b :: r, err => (if e = err then b else []) ++ sentBeforeClose r err
   | _ :: r, err => sentBeforeClose r err
 
-/-! ### drain -/
+/-! ### drain
+
+  `SSHStreamSession.drain(datatype)` is `while self._should_block_drain(datatype): await <a new waiter>`; the waiter
+  is completed by `_unblock_drain(datatype)`, which the session calls from `resume_writing`, `connection_lost` and
+  `clear_reader` and which completes the waiters only `if not self._should_block_drain(datatype)` at that moment.
+  Every process session runs the override `SSHProcess._should_block_drain`:
+  `datatype in self._readers or super()._should_block_drain(datatype)` — a stream that is fed by a redirect source
+  blocks `drain` until the source has ended. -/
 
 inductive DEv where
   | pauseWriting           -- channel send buffer above the high-water mark
   | resumeWriting          -- ... back below the low-water mark
   | lost (withExc : Bool)  -- `connection_lost(exc)`
+  | setReader              -- `redirect(stdin/stdout=source)`: `set_reader` registers a source for the stream
+  | readerDone             -- the source ended (`feed_eof` → `clear_reader`) or was replaced by `PIPE`
 deriving DecidableEq, Repr
 
 structure DSt where
   writePaused : Bool := false
   connLost    : Bool := false
   exc         : Bool := false
+  reader      : Bool := false   -- `datatype in self._readers`
 deriving DecidableEq, Repr
 
-def dstep (s : DSt) : DEv → DSt
-  | .pauseWriting => { s with writePaused := true }
-  | .resumeWriting => { s with writePaused := false }
-  | .lost e => { s with connLost := true, exc := e }
+/-- `SSHProcess._should_block_drain` -/
+def shouldBlockDrain (s : DSt) : Bool := s.reader || (s.writePaused && !s.connLost)
+
+/-- One event: the state after it and whether a `drain()` waiting at that moment is woken (the event called
+    `_unblock_drain` at a point where `_should_block_drain` was false).
+    `fixed = true`: `SSHProcess.connection_lost` calls `_unblock_drain` once more after `self._readers = {}` (repair
+    of finding A-C19-1); `fixed = false`: only the base class's call, made while the readers are still registered. -/
+def dstepW (fixed : Bool) (s : DSt) : DEv → DSt × Bool
+  | .pauseWriting => ({ s with writePaused := true }, false)
+  | .resumeWriting =>
+    let s' := { s with writePaused := false }
+    (s', !shouldBlockDrain s')
+  | .setReader => ({ s with reader := true }, false)
+  | .readerDone =>
+    if s.reader then
+      let s' := { s with reader := false }
+      (s', !shouldBlockDrain s')
+    else (s, false)
+  | .lost e =>
+    let s1 := { s with connLost := true, exc := e }     -- `super().connection_lost(exc)` ... `_unblock_drain`
+    let s2 := { s1 with reader := false }               -- `self._readers = {}`
+    (s2, !shouldBlockDrain s1 || (fixed && !shouldBlockDrain s2))
+
+def dstep (s : DSt) (e : DEv) : DSt := (dstepW true s e).1
 
 inductive DrainRes where
   | returned | raisedExc | brokenPipe | blocked
 deriving DecidableEq, Repr
 
-/-- `SSHStreamSession.drain`: wait while `write_paused and not connection_lost`, then fail if the connection
-    was lost with an exception, or was lost while writing was still paused -/
-def drain : DSt → List DEv → DrainRes × DSt
-  | s, evs =>
-    if s.writePaused && !s.connLost then
-      match evs with
-      | [] => (.blocked, s)
-      | e :: rest => drain (dstep s e) rest
-    else if s.connLost then
-      if s.exc then (.raisedExc, s) else if s.writePaused then (.brokenPipe, s) else (.returned, s)
-    else (.returned, s)
+/-- the part of `drain` after its loop: fail if the connection was lost with an exception, or was lost while
+    writing was still paused -/
+def drainFinish (s : DSt) : DrainRes :=
+  if s.connLost then
+    if s.exc then .raisedExc else if s.writePaused then .brokenPipe else .returned
+  else .returned
+
+/-- a `drain()` call that is waiting: it runs again only when an event wakes it (the woken task runs before the
+    next event; nothing else can intervene, so its loop test passes) -/
+def drainWait (fixed : Bool) : DSt → List DEv → DrainRes × DSt
+  | s, [] => (.blocked, s)
+  | s, e :: rest =>
+    let r := dstepW fixed s e
+    if r.2 then (drainFinish r.1, r.1) else drainWait fixed r.1 rest
+
+/-- `SSHStreamSession.drain` on a process session -/
+def drainW (fixed : Bool) (s : DSt) (evs : List DEv) : DrainRes × DSt :=
+  if shouldBlockDrain s then drainWait fixed s evs else (drainFinish s, s)
+
+/-- the code as it is (repaired) -/
+def drain (s : DSt) (evs : List DEv) : DrainRes × DSt := drainW true s evs
+
+/-- the code before the repair of A-C19-1 -/
+def drainPreFix (s : DSt) (evs : List DEv) : DrainRes × DSt := drainW false s evs
 
 end AsyncsshModel.StreamProc
